@@ -119,6 +119,12 @@ def Payload.isScan : Payload → Bool
   | .portScan => true
   | _ => false
 
+/-- the payload carries a reply (`dns_reply` / `ntp_reply` is set) -/
+def Payload.isReply : Payload → Bool
+  | .dns _ (some _) => true
+  | .ntp (some _) => true
+  | _ => false
+
 /-- per-object state of the modelled classes (objects of other classes carry no entry) -/
 inductive Data
   | dnsServer (table : List (String × Nat))                              -- dns_table
